@@ -114,6 +114,19 @@ CHECKS = {
                      "own Jacobi solver (cross-checked with eigvalsh and the characteristic polynomial); inequalities, signed variants and the +1 convention included.",
                 note="abs-max sign not judged where lambda_max = -lambda_min exactly on non-diagonal tensors (LAPACK rounding); lattice bounded.",
                 ref="3 C17"),
+    "C18": dict(cat="exploration", tech="exhaustive enumeration of synthetic fatigue series (levels x repetitions x jitter x run-out configurations) x scale factors x row permutations, metamorphic + reference likelihood",
+                text="Every synthetic series of the menu (k x level subsets of {250,300,350,400} x repetitions x jitter patterns x 6-7 run-out configurations) is analysed by the real "
+                     "Elementary / Probit / MaxLikeInf / MaxLikeFull under load scaling, cycle scaling, reversed / rotated / swapped / all (n <= 4-5) row orders and carried labels; "
+                     "closed-form analyzers at rtol 1e-9, likelihood maximisers by reference log-likelihood (1e-3) and 5 % on well-determined parameters; exact-line recovery "
+                     "(k_1, TN = TS = 1), zone partition at the reported transition, likelihood not below the elementary start.",
+                note="Parameters in likelihood-flat directions are counted, not judged; ND under load scaling is not in the property; MaxLike runs are slow, the family is smaller.",
+                ref="3 C18"),
+    "C19": dict(cat="exploration", tech="exhaustive enumeration of small meshes x node/element numberings x row orders x linear fields; all small incidence structures x value assignments vs union-find",
+                text="Gradient / Gradient3D on hex and 5-/6-tet blocks (1..2)^3, 3 perturbations, 6 node x 3-6 element numberings (offset, gaps, reversed, deranged, zero-based), "
+                     "row orders incl. fully shuffled, linear fields (64-field sweep on plain configurations); mapper identity / linear reproduction; Surface3D on blocks up to 3x3x3; "
+                     "HotSpot labels for all incidence structures of <= 2 (thorough 3) elements x all value assignments in {1,2,3}^rows x 3 thresholds vs a union-find reference.",
+                note="Quadratic elements, mixed hex+tet and unstructured meshes are not enumerated.",
+                ref="3 C19"),
     "C20": dict(cat="model_checking", tech="explicit-state BFS over exporter call histories (incl. failing calls) on real HDF5 files, dict reference model, twin comparison for failed calls",
                 text="All sequences of exporter events (add_geometry for 11-14 small meshes in id/row-order variants, duplicate and unsupported calls that must raise, "
                      "node/element sets valid and with foreign ids, NODE / ELEMENT_NODAL variables, second state, bad column) to depth 3 (quick) / 4 (thorough) are "
